@@ -474,6 +474,15 @@ impl BudgetEnforcer {
         }
     }
 
+    /// The alias just observed is about to be expanded, and the expanded node will be observed
+    /// like any other: hand the key/value position the alias token took back to that node, so
+    /// that the position (and with it the merge-key count) advances once per node.
+    pub(crate) fn alias_will_be_replayed(&mut self) {
+        if let Some(ContainerState::Mapping { expecting_key, .. }) = self.containers.last_mut() {
+            *expecting_key = !*expecting_key;
+        }
+    }
+
     fn entering_container(&mut self) -> bool {
         if let Some(ContainerState::Mapping { expecting_key, .. }) = self.containers.last_mut() {
             if *expecting_key {
